@@ -156,8 +156,8 @@ PROPS = {
     "C18": {
         "lean_modules": ["WP.Props.C18"],
         "lean_support": ["WP.Props.C09"],
-        "families": [("reset", 30000, 1000000), ("snap", 30000, 1000000), ("bundle", 30000, 1000000), ("hist", 12000, 300000)],
-        "rule": "hist op xopen: open_position and open_position_with_token_extensions (with / without token metadata) through the REAL entrypoint, system program, associated-token program and the real SPL Token / Token-2022 processors, over explicit / invalid / price-derived bounds: one position token, no mint authority left, the resolved and validated range; hist op xlock: lock_position on a Token-2022 position token through the REAL entrypoint (freeze CPI into the real Token-2022 processor, LockConfig created through the system program), then one follow-up on the locked position: decrease / close / re-range / reposition / lock again must be refused, increase / collect fees / transfer_locked_position must work; hist (op xpos): update_fees_and_rewards, collect_fees / collect_fees_v2 (with transfer-fee mints), close_position and reset_position_range executed through the REAL entrypoint on a fixture built from the current state of the history (position account at its PDA, position mint with supply 1, position token account held by the owner or delegated with allowance 1 / 0), signed by the owner / a stranger / nobody / a one-token delegate / a zero-allowance delegate: result and error compared with the Lean model (isPositionEmpty, resetPositionRange, the position-authority rule) and with the manager-level reference; oracles: only the holder or one-token delegate succeeds, close / reset only on empty positions, reset stores a different valid range and zeroes the checkpoints, collect pays exactly the owed amounts (minus transfer fee) and zeroes them; reset: Position::reset_position_range (Anchor) and MemoryMappedPosition::reset_position_range (Pinocchio, keep_owed on/off) on the same serialized "
+        "families": [("reset", 30000, 1000000), ("snap", 30000, 1000000), ("bundle", 30000, 1000000), ("xbun", 6000, 300000), ("hist", 12000, 300000)],
+        "rule": "xbun: histories of position-bundle instructions through the REAL entrypoint on a persistent world: initialize_position_bundle (bundle account, mint and associated token account created by Anchor's init, the system program, the real SPL Token processor), open_bundled_position / close_bundled_position over all kinds of indexes (0..255, open ones, 256 and beyond) and ranges, delete_position_bundle; the bundle owner signing / a stranger / nobody / a one-token delegate; closing positions made non-empty (liquidity, owed fee, owed reward); after EVERY op all 256 bundled-position addresses are probed: the bitmap marks exactly the accounts that exist; compared with the bitmap state machine `bundleUpdate` (theorems C18.bundle_update_spec, bitmap_exact, deletable_iff) and the range rules, result codes by name; hist op xopen: open_position and open_position_with_token_extensions (with / without token metadata) through the REAL entrypoint, system program, associated-token program and the real SPL Token / Token-2022 processors, over explicit / invalid / price-derived bounds: one position token, no mint authority left, the resolved and validated range; hist op xlock: lock_position on a Token-2022 position token through the REAL entrypoint (freeze CPI into the real Token-2022 processor, LockConfig created through the system program), then one follow-up on the locked position: decrease / close / re-range / reposition / lock again must be refused, increase / collect fees / transfer_locked_position must work; hist (op xpos): update_fees_and_rewards, collect_fees / collect_fees_v2 (with transfer-fee mints), close_position and reset_position_range executed through the REAL entrypoint on a fixture built from the current state of the history (position account at its PDA, position mint with supply 1, position token account held by the owner or delegated with allowance 1 / 0), signed by the owner / a stranger / nobody / a one-token delegate / a zero-allowance delegate: result and error compared with the Lean model (isPositionEmpty, resetPositionRange, the position-authority rule) and with the manager-level reference; oracles: only the holder or one-token delegate succeeds, close / reset only on empty positions, reset stores a different valid range and zeroes the checkpoints, collect pays exactly the owed amounts (minus transfer fee) and zeroes them; reset: Position::reset_position_range (Anchor) and MemoryMappedPosition::reset_position_range (Pinocchio, keep_owed on/off) on the same serialized "
                 "accounts over all spacings, usable/unusable/out-of-bound ticks, empty and non-empty positions; snap: resolve_one_sided_position_ticks with either/both/no "
                 "sentinel over prices on and between ticks; bundle: open/close op sequences on a real PositionBundle (indexes incl. byte boundaries and >= 256); "
                 "non-trivial = an accepted operation",
